@@ -337,6 +337,155 @@ theorem welchCompleted_diag (tw : ℕ → ℂ) (Fs : ℝ) (n nov : ℕ) (os : Bo
     simp
   · rw [welchCompleted_is_gram, gramK_diag, Complex.ofReal_im]
 
+/-! ### `scale_sq` for the matrices -/
+
+/-- scaling every channel by `a` multiplies the whole `periodogram_csd` matrix by `|a|²` -/
+theorem periodogramCsd_scale_sq (tw : ℕ → ℂ) (Fs : ℝ) (n : ℕ) (os : Bool) (a : ℂ) (x : ℕ → ℕ → ℂ)
+    (i j k : ℕ) :
+    periodogramCsdAt tw Fs n N os (fun i j => a * x i j) i j k
+      = (Complex.normSq a : ℂ) * periodogramCsdAt tw Fs n N os x i j k := by
+  rw [periodogramCsd_is_gram, periodogramCsd_is_gram, ← gramK_smul]
+  exact gramK_congr _ _ (fun t _ => spec_smul tw n a (x i) k) (fun t _ => spec_smul tw n a (x j) k)
+
+/-- the same for `multi_taper_csd` (same tapers and weights) -/
+theorem multiTaperCsd_scale_sq (tw : ℕ → ℂ) (Fs : ℝ) (n : ℕ) (os : Bool) (T : ℕ) (h : ℕ → ℕ → ℝ)
+    (w : ℕ → ℕ → ℕ → ℝ) (a : ℂ) (x : ℕ → ℕ → ℂ) (i j k : ℕ) :
+    multiTaperCsdAt tw Fs n N os T h w (fun i j => a * x i j) i j k
+      = (Complex.normSq a : ℂ) * multiTaperCsdAt tw Fs n N os T h w x i j k := by
+  rw [multiTaperCsd_is_gram, multiTaperCsd_is_gram, ← gramK_smul]
+  refine gramK_congr _ _ (fun t _ => ?_) (fun t _ => ?_) <;>
+  · unfold mtU; rw [taperedSpec_smul]; ring
+
+/-- and for the completed Welch matrix -/
+theorem welchCompleted_scale_sq (tw : ℕ → ℂ) (Fs : ℝ) (n nov : ℕ) (os : Bool) (win : ℕ → ℝ) (a : ℂ)
+    (x : ℕ → ℕ → ℂ) (i j m : ℕ) :
+    welchCompletedAt tw Fs n N nov os win (fun i j => a * x i j) i j m
+      = (Complex.normSq a : ℂ) * welchCompletedAt tw Fs n N nov os win x i j m := by
+  rw [welchCompleted_is_gram, welchCompleted_is_gram, ← gramK_smul]
+  exact gramK_congr _ _ (fun s _ => segSpec_smul tw n nov win a (x i) s _)
+    (fun s _ => segSpec_smul tw n nov win a (x j) s _)
+
+/-! ### `entry_depends_on_pair` and its explicit corollaries (subset / superset / permutation / flattening)
+
+All are instances of `…_reindex` (selection `σ`) or `…_pair` (two inputs that agree on the pair). -/
+
+/-- the entry `(i, j)` is determined by channels `i` and `j` (data and weights) alone -/
+theorem multiTaperCsd_pair (tw : ℕ → ℂ) (Fs : ℝ) (n : ℕ) (os : Bool) (T : ℕ) (h : ℕ → ℕ → ℝ)
+    {w w' : ℕ → ℕ → ℕ → ℝ} {x x' : ℕ → ℕ → ℂ} {i j i' j' : ℕ}
+    (hi : x i = x' i') (hj : x j = x' j') (hwi : w i = w' i') (hwj : w j = w' j') (k : ℕ) :
+    multiTaperCsdAt tw Fs n N os T h w x i j k = multiTaperCsdAt tw Fs n N os T h w' x' i' j' k := by
+  rw [multiTaperCsd_is_gram, multiTaperCsd_is_gram]
+  refine gramK_congr _ _ (fun t _ => ?_) (fun t _ => ?_) <;> unfold mtU
+  · rw [hi, hwi]
+  · rw [hj, hwj]
+
+theorem periodogramCsd_pair (tw : ℕ → ℂ) (Fs : ℝ) (n : ℕ) (os : Bool) {x x' : ℕ → ℕ → ℂ}
+    {i j i' j' : ℕ} (hi : x i = x' i') (hj : x j = x' j') (k : ℕ) :
+    periodogramCsdAt tw Fs n N os x i j k = periodogramCsdAt tw Fs n N os x' i' j' k := by
+  rw [periodogramCsd_is_gram, periodogramCsd_is_gram]
+  exact gramK_congr _ _ (fun t _ => by rw [hi]) (fun t _ => by rw [hj])
+
+theorem welchCompleted_pair (tw : ℕ → ℂ) (Fs : ℝ) (n nov : ℕ) (os : Bool) (win : ℕ → ℝ)
+    {x x' : ℕ → ℕ → ℂ} {i j i' j' : ℕ} (hi : x i = x' i') (hj : x j = x' j') (m : ℕ) :
+    welchCompletedAt tw Fs n N nov os win x i j m = welchCompletedAt tw Fs n N nov os win x' i' j' m := by
+  rw [welchCompleted_is_gram, welchCompleted_is_gram]
+  exact gramK_congr _ _ (fun t _ => by rw [hi]) (fun t _ => by rw [hj])
+
+/-- removing channel `d`: the channels `i ↦ if i < d then i else i + 1` -/
+def dropChan (d : ℕ) (i : ℕ) : ℕ := if i < d then i else i + 1
+
+/-- `subset_invariant`: after removing channel `d` the entries of the remaining pairs are unchanged -/
+theorem multiTaperCsd_subset_invariant (tw : ℕ → ℂ) (Fs : ℝ) (n : ℕ) (os : Bool) (T : ℕ)
+    (h : ℕ → ℕ → ℝ) (w : ℕ → ℕ → ℕ → ℝ) (x : ℕ → ℕ → ℂ) (d i j k : ℕ) :
+    multiTaperCsdAt tw Fs n N os T h (fun i => w (dropChan d i)) (fun i => x (dropChan d i)) i j k
+      = multiTaperCsdAt tw Fs n N os T h w x (dropChan d i) (dropChan d j) k :=
+  multiTaperCsd_reindex tw Fs n os T h w x (dropChan d) i j k
+
+theorem periodogramCsd_subset_invariant (tw : ℕ → ℂ) (Fs : ℝ) (n : ℕ) (os : Bool) (x : ℕ → ℕ → ℂ)
+    (d i j k : ℕ) :
+    periodogramCsdAt tw Fs n N os (fun i => x (dropChan d i)) i j k
+      = periodogramCsdAt tw Fs n N os x (dropChan d i) (dropChan d j) k :=
+  periodogramCsd_reindex tw Fs n os x (dropChan d) i j k
+
+theorem welchCompleted_subset_invariant (tw : ℕ → ℂ) (Fs : ℝ) (n nov : ℕ) (os : Bool) (win : ℕ → ℝ)
+    (x : ℕ → ℕ → ℂ) (d i j m : ℕ) :
+    welchCompletedAt tw Fs n N nov os win (fun i => x (dropChan d i)) i j m
+      = welchCompletedAt tw Fs n N nov os win x (dropChan d i) (dropChan d j) m :=
+  welchCompleted_reindex tw Fs n nov os win x (dropChan d) i j m
+
+/-- `superset_invariant`: channels added at positions `≥ M` do not change the entries among the
+first `M` channels -/
+theorem multiTaperCsd_superset_invariant (tw : ℕ → ℂ) (Fs : ℝ) (n : ℕ) (os : Bool) (T : ℕ)
+    (h : ℕ → ℕ → ℝ) {w w' : ℕ → ℕ → ℕ → ℝ} {x x' : ℕ → ℕ → ℂ} {M : ℕ}
+    (hx : ∀ i < M, x' i = x i) (hw : ∀ i < M, w' i = w i) {i j : ℕ} (hi : i < M) (hj : j < M) (k : ℕ) :
+    multiTaperCsdAt tw Fs n N os T h w' x' i j k = multiTaperCsdAt tw Fs n N os T h w x i j k :=
+  multiTaperCsd_pair tw Fs n os T h (hx i hi) (hx j hj) (hw i hi) (hw j hj) k
+
+theorem periodogramCsd_superset_invariant (tw : ℕ → ℂ) (Fs : ℝ) (n : ℕ) (os : Bool)
+    {x x' : ℕ → ℕ → ℂ} {M : ℕ} (hx : ∀ i < M, x' i = x i) {i j : ℕ} (hi : i < M) (hj : j < M) (k : ℕ) :
+    periodogramCsdAt tw Fs n N os x' i j k = periodogramCsdAt tw Fs n N os x i j k :=
+  periodogramCsd_pair tw Fs n os (hx i hi) (hx j hj) k
+
+theorem welchCompleted_superset_invariant (tw : ℕ → ℂ) (Fs : ℝ) (n nov : ℕ) (os : Bool)
+    (win : ℕ → ℝ) {x x' : ℕ → ℕ → ℂ} {M : ℕ} (hx : ∀ i < M, x' i = x i) {i j : ℕ} (hi : i < M)
+    (hj : j < M) (m : ℕ) :
+    welchCompletedAt tw Fs n N nov os win x' i j m = welchCompletedAt tw Fs n N nov os win x i j m :=
+  welchCompleted_pair tw Fs n nov os win (hx i hi) (hx j hj) m
+
+/-- `permutation_equivariant`: permuting the channels by `σ` permutes rows and columns by `σ` -/
+theorem multiTaperCsd_permutation_equivariant (tw : ℕ → ℂ) (Fs : ℝ) (n : ℕ) (os : Bool) (T : ℕ)
+    (h : ℕ → ℕ → ℝ) (w : ℕ → ℕ → ℕ → ℝ) (x : ℕ → ℕ → ℂ) (σ : Equiv.Perm ℕ) (i j k : ℕ) :
+    multiTaperCsdAt tw Fs n N os T h (fun i => w (σ i)) (fun i => x (σ i)) i j k
+      = multiTaperCsdAt tw Fs n N os T h w x (σ i) (σ j) k :=
+  multiTaperCsd_reindex tw Fs n os T h w x σ i j k
+
+theorem periodogramCsd_permutation_equivariant (tw : ℕ → ℂ) (Fs : ℝ) (n : ℕ) (os : Bool)
+    (x : ℕ → ℕ → ℂ) (σ : Equiv.Perm ℕ) (i j k : ℕ) :
+    periodogramCsdAt tw Fs n N os (fun i => x (σ i)) i j k
+      = periodogramCsdAt tw Fs n N os x (σ i) (σ j) k :=
+  periodogramCsd_reindex tw Fs n os x σ i j k
+
+theorem welchCompleted_permutation_equivariant (tw : ℕ → ℂ) (Fs : ℝ) (n nov : ℕ) (os : Bool)
+    (win : ℕ → ℝ) (x : ℕ → ℕ → ℂ) (σ : Equiv.Perm ℕ) (i j m : ℕ) :
+    welchCompletedAt tw Fs n N nov os win (fun i => x (σ i)) i j m
+      = welchCompletedAt tw Fs n N nov os win x (σ i) (σ j) m :=
+  welchCompleted_reindex tw Fs n nov os win x σ i j m
+
+/-- `flatten_invariant`: for an `(a, b, n)` array `y` flattened in C order to `a·b` channels
+(`c ↦ y (c / b) (c % b)`, what `s.reshape(-1, n)` does), the entry for the flat channels
+`p·b + q`, `p'·b + q'` (`q, q' < b`) is the entry `(0, 1)` of the two-channel input
+`[y p q, y p' q']`: leading dimensions only label the channels -/
+theorem multiTaperCsd_flatten_invariant (tw : ℕ → ℂ) (Fs : ℝ) (n : ℕ) (os : Bool) (T : ℕ)
+    (h : ℕ → ℕ → ℝ) (w : ℕ → ℕ → ℕ → ℕ → ℝ) (y : ℕ → ℕ → ℕ → ℂ) {b : ℕ} {p q p' q' : ℕ}
+    (hq : q < b) (hq' : q' < b) (k : ℕ) :
+    multiTaperCsdAt tw Fs n N os T h (fun c => w (c / b) (c % b)) (fun c => y (c / b) (c % b))
+        (p * b + q) (p' * b + q') k
+      = multiTaperCsdAt tw Fs n N os T h (fun c => if c = 0 then w p q else w p' q')
+          (fun c => if c = 0 then y p q else y p' q') 0 1 k := by
+  have e1 : (p * b + q) / b = p ∧ (p * b + q) % b = q := by
+    constructor
+    · rw [Nat.add_comm, Nat.add_mul_div_right _ _ (by omega), Nat.div_eq_of_lt hq, Nat.zero_add]
+    · rw [Nat.add_comm, Nat.add_mul_mod_self_right, Nat.mod_eq_of_lt hq]
+  have e2 : (p' * b + q') / b = p' ∧ (p' * b + q') % b = q' := by
+    constructor
+    · rw [Nat.add_comm, Nat.add_mul_div_right _ _ (by omega), Nat.div_eq_of_lt hq', Nat.zero_add]
+    · rw [Nat.add_comm, Nat.add_mul_mod_self_right, Nat.mod_eq_of_lt hq']
+  apply multiTaperCsd_pair <;> simp [e1, e2]
+
+theorem periodogramCsd_flatten_invariant (tw : ℕ → ℂ) (Fs : ℝ) (n : ℕ) (os : Bool)
+    (y : ℕ → ℕ → ℕ → ℂ) {b : ℕ} {p q p' q' : ℕ} (hq : q < b) (hq' : q' < b) (k : ℕ) :
+    periodogramCsdAt tw Fs n N os (fun c => y (c / b) (c % b)) (p * b + q) (p' * b + q') k
+      = periodogramCsdAt tw Fs n N os (fun c => if c = 0 then y p q else y p' q') 0 1 k := by
+  have e1 : (p * b + q) / b = p ∧ (p * b + q) % b = q := by
+    constructor
+    · rw [Nat.add_comm, Nat.add_mul_div_right _ _ (by omega), Nat.div_eq_of_lt hq, Nat.zero_add]
+    · rw [Nat.add_comm, Nat.add_mul_mod_self_right, Nat.mod_eq_of_lt hq]
+  have e2 : (p' * b + q') / b = p' ∧ (p' * b + q') % b = q' := by
+    constructor
+    · rw [Nat.add_comm, Nat.add_mul_div_right _ _ (by omega), Nat.div_eq_of_lt hq', Nat.zero_add]
+    · rw [Nat.add_comm, Nat.add_mul_mod_self_right, Nat.mod_eq_of_lt hq']
+  apply periodogramCsd_pair <;> simp [e1, e2]
+
 /-! ### executable = pointwise, and non-vacuity -/
 
 theorem welchCompletedList_eq {R K : Type} [RScalar R] [CScalar R K] (tw : ℕ → K) (Fs : R)
